@@ -38,6 +38,35 @@ pub fn long_name(n: usize) -> String {
 
 /// A pool of 3..=5 distinct names; always contains "a" so that prefix siblings are meaningful.
 pub fn pool_strategy() -> impl Strategy<Value = Vec<String>> {
+    prop_oneof![
+        12 => base_pool_strategy(),
+        // WIDE: 12..=20 names (directories with many entries; depth is clamped to 2)
+        1 => (12usize..=20, any::<u8>()).prop_map(|(n, flavour)| {
+            let mut pool = vec!["a".to_string(), "ab".to_string()];
+            for i in 0..n - 2 {
+                pool.push(match (i + flavour as usize) % 5 {
+                    0 => format!("n{}", i),
+                    1 => format!("f{}.txt", i),
+                    2 => format!("ü{}", i),
+                    3 => format!("a{}", i),
+                    _ => format!("{}", i),
+                });
+            }
+            pool
+        }),
+        // NARROW: two names, so that the universe can be 7 levels deep
+        1 => (0usize..6, any::<u16>()).prop_map(|(g, i)| {
+            let grp = NAME_GROUPS[g];
+            let mut name = grp[idx(i, grp.len())].to_string();
+            if name == "L" || name == "a" {
+                name = "b.c".to_string();
+            }
+            vec!["a".to_string(), name]
+        }),
+    ]
+}
+
+fn base_pool_strategy() -> impl Strategy<Value = Vec<String>> {
     (proptest::collection::vec((0usize..6, any::<u16>()), 2..=4), 0u8..4).prop_map(|(picks, longsel)| {
         let mut pool = vec!["a".to_string()];
         for (g, i) in picks {
@@ -83,6 +112,12 @@ pub fn pool_class(pool: &[String]) -> Vec<&'static str> {
     }
     if pool_has_prefix_pair(pool) {
         v.push("prefix-pair");
+    }
+    if pool.len() >= 12 {
+        v.push("wide(12-20 names, depth 2)");
+    }
+    if pool.len() == 2 {
+        v.push("deep(2 names, depth up to 7)");
     }
     v
 }
